@@ -400,11 +400,14 @@ impl<'a, R: RealNumberInternalTrait> Interpreter<'a, R> {
             Primitive::String(string) => Value::String(string.clone()),
             Primitive::Boolean(value) => Value::Boolean(*value),
             Primitive::Integer(value) => Value::Number(Number::Integer(*value)),
-            Primitive::Real(number_literal) => Value::Number(Number::Real(
-                R::from(number_literal.parse::<f64>().unwrap()).unwrap(),
-            )),
-            // TODO: apply gcd here.
-            Primitive::Rational(a, b) => Value::Number(Number::Rational(*a, *b as i32)),
+            // parse at the precision of R: going through f64 first rounds twice
+            Primitive::Real(number_literal) => match R::from_str_radix(number_literal, 10) {
+                Ok(real) => Value::Number(Number::Real(real)),
+                Err(_) => return error!(SyntaxError::UnrecognizedToken),
+            },
+            Primitive::Rational(a, b) => {
+                Value::Number(Number::exact_ratio(*a as i128, *b as i128))
+            }
         })
     }
 
